@@ -118,6 +118,33 @@ def node_xml(g, i):
     elif k in ("IntSwissKnife", "SwissKnife"):
         s += var_xml(n)
         s += X.el("Formula", n.get("formula") or "1")
+    elif k == "MaskedIntReg" and n.get("struct") is not None:
+        # the same feature written as the single <StructEntry> of a <StructReg>: bit j of n["struct"] says that the
+        # j-th mergeable element (pIsImplemented, pIsAvailable, pIsLocked, ImposedAccessMode, AccessMode) is declared
+        # on the StructReg and inherited by the entry; otherwise the entry declares it itself
+        lv = n["struct"]
+        top = ent = ""
+        for j, (tag, key) in enumerate((("pIsImplemented", "impl"), ("pIsAvailable", "avail"), ("pIsLocked", "lock"))):
+            if n[key] is not None:
+                x = X.el(tag, nm(n[key]))
+                if lv >> j & 1:
+                    top += x
+                else:
+                    ent += x
+        if n["imposed"]:
+            if lv >> 3 & 1:
+                top += X.el("ImposedAccessMode", n["imposed"])
+            else:
+                ent += X.el("ImposedAccessMode", n["imposed"])
+        top += X.el("Address", addr_of(g, i)) + X.el("Length", REG_LEN[k])
+        if n["access"]:
+            if lv >> 4 & 1:
+                top += X.el("AccessMode", n["access"])
+            else:
+                ent += X.el("AccessMode", n["access"])
+        top += X.el("pPort", "Device") + X.el("Cachable", n.get("cachable", "NoCache")) + X.el("Endianess", "LittleEndian")
+        ent += X.el("LSB", 0) + X.el("MSB", 7) + X.el("Sign", "Unsigned")
+        return '<StructReg Comment="c%d">%s<StructEntry Name="%s">%s</StructEntry></StructReg>' % (i, top, nm(i), ent)
     elif k in REG_KINDS:
         s += X.el("Address", addr_of(g, i)) + X.el("Length", REG_LEN[k])
         if n["access"]:
